@@ -40,6 +40,32 @@ PROPS = {
         'functions': ['Display::{set_address_window,set_pixels,set_pixel}', 'DrawTarget::fill_solid', 'OriginDimensions::size', 'ModelOptions::display_size', 'MemoryMapping::from_orientation', 'SetColumnAddress/SetPageAddress'],
         'assumptions': ['controller decode of MADCTL bits (trusted oracle)', 'Interface trait contract for generic transports', 'pixel content/order of streams: see C03/C04 (bounded)'],
     },
+    'C06': {
+        'level_text': "Unbounded proof of the byte stream: Verus verifies the real loops of SpiInterface::{send_command, send_pixels, send_repeated_pixel} (generic SPI device / DC pin, any buffer length >= one pixel, any pixel size N >= 1, any finite lawful pixel stream, any count) against per-object ghost logs of the hal calls: the concatenation of the bytes written to the SPI device is exactly instruction byte + parameters / the pixel arrays in order / count copies of the pixel, every write succeeded, nothing stale or padded (the postcondition mentions no old buffer byte), the DC pin sees exactly [low, high] per command and nothing during pixel data, and every loop terminates (decreases clauses). The order of DC edges relative to the SPI writes inside send_command and the error variants are proved by Kani on the straight-line unit with a shared wire model (complete). Bounded Kani harnesses (buffers 2..5 bytes, <= 5 pixels) cross-check the assumed chunks_exact_mut contract and the transaction bound.",
+        'level_note': "Assumed std contracts: <[T]>::chunks_exact_mut (prophetic aliasing spec), try_into::<&mut [u8;N]> (wrapper), core::cmp::min (wrapper), IntoIterator::into_iter (wrapper, A-yields). Buffers of 4 GiB or more are outside the specification (capacity() == 0: the pixel count is cast to u32). Interleaving of whole bursts across SPI/DC objects: unit interleaving (Kani) + loops (Verus) composed on paper (DESIGN.md 3.6).",
+        'technique': 'Verus loop invariants over prophetic iterators and per-object hal ghost logs; Kani unit interleaving; bounded Kani cross-check',
+        'verus': {'cfgs': ['default'], 'fns': [r'^interface::spi::SpiInterface::(send_command|send_pixels|send_repeated_pixel|new|release)$',
+                                               r'^vf::lemma_(written_push|written_none|rep_add|flat_add|skip_step)$', r'^vf::(slice_as_array_mut|min_u32|into_iter)$']},
+        'kani': {'files': ['spi.rs'], 'nonterm': ['c06_repeat_zero_terminates'],
+                 'groups': [{'quick': ['c06_send_command_order_and_faults', 'c06_repeat_zero_terminates', 'c06_repeated_pixel_bounded'],
+                             'thorough': ['c06_send_pixels_bounded'],
+                             'bounded': {'c06_repeated_pixel_bounded': 'buffer 2..=5 bytes, N=2, count 1..=5', 'c06_send_pixels_bounded': 'buffer 2..=5 bytes, N=2, <=4 pixels'}, 'jobs': 4}]},
+        'pairs': {r'send_repeated_pixel': ['c06_repeat_zero_terminates', 'c06_repeated_pixel_bounded'], r'send_command': ['c06_send_command_order_and_faults']},
+        'functions': ['SpiInterface::{send_command,send_pixels,send_repeated_pixel}'],
+        'assumptions': ['chunks_exact_mut / try_into / cmp::min / into_iter std contracts (assumed; bounded cross-check)', 'pixel streams are finite and lawful (obeys_prophetic_iter_laws, decrease() is Some)',
+                        'composition of unit interleaving and loops across hal objects is argued, not machine-checked'],
+    },
+    'C07': {
+        'level_text': "Bus-cache invariant and unit interleaving proved completely, bursts bounded: Kani proves on the macro-expanded set_value of Generic8BitBus and Generic16BitBus (loop-free) the induction step of `last == Some(v) => the pins show v` for every previous state, every value and every single pin-write failure (cache cleared on failure, nothing written after the failing pin), the base case (new bus has no cache), that send_word latches exactly the word at the rising WR edge from any state satisfying the invariant, and is_same's contract for N in 0..=3. Sequences (send_command with <= 3 parameters, 2 pixels x 2 words, repeated pixel count <= 2) are bounded stand-ins.",
+        'level_note': "The loops of ParallelInterface::{send_command, send_pixels, send_repeated_pixel} are not yet under Verus proof (bounded Kani only): word order and strobe counts for unbounded bursts, and the `count * N` product, are NOT proved here.",
+        'technique': 'Kani complete induction-step harnesses on loop-free units; bounded harnesses for bursts',
+        'kani': {'files': ['parallel.rs'], 'groups': [{'quick': ['c07_set_value_step_8', 'c07_set_value_step_16', 'c07_new_bus_has_no_cache', 'c07_send_word_latches_word', 'c07_is_same_contract',
+                                                      'c07_send_command_bounded', 'c07_send_pixels_bounded'],
+                             'thorough': ['c07_send_repeated_pixel_bounded'],
+                             'bounded': {'c07_send_command_bounded': '<= 3 parameter bytes', 'c07_send_pixels_bounded': '2 pixels x 2 words', 'c07_send_repeated_pixel_bounded': 'count <= 2, N = 2'}, 'jobs': 8}]},
+        'functions': ['Generic8BitBus::set_value', 'Generic16BitBus::set_value', 'ParallelInterface::send_word', 'is_same'],
+        'assumptions': ['bursts: bounded stand-ins only'],
+    },
     'C09': {
         'level_text': "Unbounded proof, generic in the Model: Verus proves on the real Builder::init that a zero or oversize width/height yields InvalidDisplaySize, a fitting size with offset+size beyond the framebuffer yields InvalidDisplayOffset (mathematical integers: the u32 arithmetic cannot wrap), the delay source is unused on rejection, a fitting window is never rejected as a size/offset error, and success implies the window fits and establishes the Display invariant. Kani proves for framebuffers 1x1, 240x320, 320x240, 65535x65535 over all u16^4 and with/without reset pin that init succeeds exactly when the window fits and that reset pin, delay source and bus are untouched on rejection (shared operation counter).",
         'level_note': "'Nothing touched on rejection' for the consumed builder's pin and bus is observable only through mocks: decided by Kani per instantiation; Verus states it for the delay source (a &mut parameter). Success additionally needs a model that accepts the interface kind and a fault-free bus.",
